@@ -74,8 +74,30 @@ def _o1(ctx, R):
     for r in RELATIONS:
         owner_ok.add((r.ccls, r.ecls, r.efield))
     n = 0
-    for f in M.ir_funcs():
-        fe = M.events(f)
+    # a private module-level function of spydrnet/ir is code of the methods that call it: its writes are judged where it is called (read in
+    # place in each caller), not as writes of "no class"
+    from ..effects import FuncEvents
+    funcs = M.ir_funcs()
+    modfuns = {f.name for f in funcs if f.cls is None and f.name.startswith("_") and not f.name.startswith("__")}
+    called = set()
+    views = {}
+    for f in funcs:
+        if f.cls is None:
+            continue
+        names_ = {c.func.id for c in walk_local(f.node) if isinstance(c, ast.Call) and isinstance(c.func, ast.Name) and c.func.id in modfuns}
+        if names_:
+            fv = inlined_view(P, f)
+            if fv is not f and any(h_.split(".")[-1] in names_ for h_ in getattr(fv, "inlined_helpers", ())):
+                views[f.key] = fv
+                called |= {h_.split(".")[-1] for h_ in fv.inlined_helpers} & names_
+    for f in funcs:
+        if f.cls is None and f.name in called:
+            continue
+        if f.key in views:
+            f = views[f.key]
+            fe = FuncEvents(P, f, M)
+        else:
+            fe = M.events(f)
         wcls = f.cls.name if f.cls is not None else "<module>"
         for evs in fe.by_node.values():
             for ev in evs:
@@ -1020,7 +1042,13 @@ def _m2_bulk(ctx, R):
             continue
         n += 1
         ok = False
+        fe_ = M.events(f)
         for lp in loops:
+            # the unlinking written out in the loop itself (a module-level helper spliced in, or no helper at all)
+            inside = {id(x) for x in ast.walk(lp)}
+            if any(ev_.kind == "write" and ((ev_.cls == "Instance" and ev_.field == "_pins") or (ev_.cls == "OuterPin" and ev_.field in ("_instance", "_inner_pin")))
+                   and id(ev_.stmt) in inside for evs_ in fe_.by_node.values() for ev_ in evs_):
+                ok = True
             for c in ast.walk(lp):
                 if isinstance(c, ast.Call) and isinstance(c.func, ast.Attribute) and norm(c.func.value) == "self":
                     t = ctx.P.ir_lookup_method(f.cls.name, c.func.attr)
